@@ -210,6 +210,8 @@ const ALPHA: [&str; 13] = [
     "&", "<", ">", "'", "\"", "#", "x", ";", "0", "1", "a", "é", " ",
 ];
 const NAME_ALPHA: [&str; 11] = ["a", "m", "p", "o", "s", "l", "t", "g", "q", "u", "A"];
+/// bodies of numeric references: digits, both radix markers, signs, hex letters, separators
+const NUM_ALPHA: [&str; 12] = ["0", "1", "4", "9", "x", "X", "+", "-", "a", "F", "_", " "];
 
 fn build(alpha: &[&str], digits: &[u8], out: &mut String) {
     out.clear();
@@ -223,7 +225,8 @@ pub fn run(ctx: &Ctx) {
         "strings: every string up to the length bound over the 13-symbol alphabet \
          {& < > ' \" # x ; 0 1 a é space}; references: every code point 0..=0x11000F plus 2^32-1, 2^32 \
          in decimal / lower hex / upper hex with 0-2 leading zeros; names: &w; for every w up to 5 letters over \
-         the letters of the five predefined names. non-trivial = the string contains '&' or a character \
+         the letters of the five predefined names, and every upper/lower-case variant of the five names; numeric bodies: \
+         &#w; for every w up to 5/6 symbols over {0 1 4 9 x X + - a F _ space}. non-trivial = the string contains '&' or a character \
          some level must escape; distinct = distinct strings. states = distinct outcome signatures \
          (Ok/Err class, length deltas of the three escaped forms)",
     );
@@ -354,6 +357,56 @@ pub fn run(ctx: &Ctx) {
                 if let Err(what) = check_string(&s, Some(acc)) {
                     acc.violation((2, i), what, json!({"kind": "string", "s": s}));
                 }
+            }
+        },
+    );
+
+    // (c2) every case variant of the five predefined names (only the all-lowercase one is a name)
+    let five = ["lt", "gt", "amp", "apos", "quot"];
+    ctx.layer("name_case_variants", 4, five.len() as u64 * 16, json!({"names": five}), |i, acc| {
+        let name = five[(i / 16) as usize];
+        let mask = i % 16;
+        if mask >> name.len() != 0 {
+            return;
+        }
+        let w: String = name
+            .chars()
+            .enumerate()
+            .map(|(k, c)| if mask & (1 << k) != 0 { c.to_ascii_uppercase() } else { c })
+            .collect();
+        for s in [format!("&{};", w), format!("a&{};b", w), format!("&{};&amp;", w)] {
+            acc.evaluations += 1;
+            acc.transitions += 8;
+            acc.traces += 1;
+            if let Err(what) = check_string(&s, Some(acc)) {
+                acc.violation((4, i), what, json!({"kind": "string", "s": s}));
+            }
+        }
+    });
+
+    // (c3) every body of a numeric reference over digits / radix markers / signs / separators
+    let qk = NUM_ALPHA.len() as u64;
+    let qlen = ctx.tier.pick(5, 6);
+    ctx.layer(
+        "numeric_bodies",
+        5,
+        count_upto(qk, qlen),
+        json!({"alphabet": NUM_ALPHA, "max_len": qlen, "contexts": ["&#w;", "x&#w;y"]}),
+        |i, acc| {
+            let mut digits = Vec::new();
+            decode_upto(qk, qlen, i, &mut digits);
+            let mut w = String::new();
+            build(&NUM_ALPHA, &digits, &mut w);
+            for s in [format!("&#{};", w), format!("x&#{};y", w)] {
+                acc.evaluations += 1;
+                acc.transitions += 8;
+                acc.traces += 1;
+                if let Err(what) = check_string(&s, Some(acc)) {
+                    acc.violation((5, i), what, json!({"kind": "string", "s": s}));
+                }
+            }
+            if i % 9973 == 0 {
+                acc.sample(seed, i ^ 0x3333, || json!({"kind":"string","s": format!("&#{};", w)}));
             }
         },
     );
